@@ -1,9 +1,13 @@
 package main
 
 import (
+	"crypto/x509"
+	"encoding/base64"
+	"encoding/json"
 	"fmt"
 	"io/ioutil"
 	"net/http"
+	"net/http/httptest"
 	neturl "net/url"
 	"strconv"
 	"strings"
@@ -11,8 +15,11 @@ import (
 	"testing"
 	"time"
 
+	"github.com/Cloud-Foundations/golib/pkg/log/testlogger"
 	"github.com/Cloud-Foundations/keymaster/lib/webapi/v0/proto"
 	"github.com/pquerna/otp/totp"
+	"github.com/tstranex/u2f"
+	"golang.org/x/time/rate"
 )
 
 func vfC16Fixture(t *testing.T, state *RuntimeState, fx string) {
@@ -123,6 +130,18 @@ func TestVerifC16(t *testing.T) {
 			// totp2 <n>: the same valid one-time code submitted by n requests at the same moment
 			n, _ := strconv.Atoi(f[1])
 			vio.emit("%s", vfC16ConcurrentTOTP(t, state, n))
+			continue
+		}
+		if len(f) == 2 && f[0] == "unseal2" {
+			// unseal2 <n>: n correct unseal requests at the same moment on a sealed server
+			n, _ := strconv.Atoi(f[1])
+			vio.emit("%s", vfC16ConcurrentUnseal(t, state, n))
+			continue
+		}
+		if len(f) == 4 && f[0] == "hw2" {
+			// hw2 <u2f|wa> <n> <same|slowsave>: one signed hardware-token assertion presented by n sessions
+			n, _ := strconv.Atoi(f[2])
+			vio.emit("%s", vfC16ConcurrentHW(t, state, f[1], n, f[3]))
 			continue
 		}
 		if len(f) == 6 && f[0] == "triple" {
@@ -317,4 +336,161 @@ func vfC16ConcurrentTOTP(t *testing.T, state *RuntimeState, n int) string {
 	close(start)
 	wg.Wait()
 	return fmt.Sprintf("%d %d", accepted, n)
+}
+
+// vfC16ConcurrentHW: fresh user with a (software) U2F token registered; one login challenge is
+// requested, the token signs it once, and n sessions of that user present that one assertion —
+// mode `same`: all at the same moment; mode `slowsave`: 40 ms apart while every profile save takes
+// 250 ms (a remote database). `<honoured> <n> <other statuses>`.
+var vfC16HWSeq int
+
+func vfC16ConcurrentHW(t *testing.T, state *RuntimeState, proto_ string, n int, mode string) string {
+	if state.webAuthn == nil {
+		vfConfigureWebAuthn(t, state)
+	}
+	// as loadVerifyConfigFile does: one application id, which is the WebAuthn origin and the only trusted facet
+	u2fAppID = state.webAuthn.Config.RPOrigin
+	u2fTrustedFacets = []string{u2fAppID}
+	vfC16HWSeq++
+	user := fmt.Sprintf("hwuser%d", vfC16HWSeq)
+	tk := c05NewToken(user)
+	p := &userProfile{U2fAuthData: map[int64]*u2fAuthData{1: {Enabled: true, Name: "t", Registration: tk.u2fRegistration()}},
+		WebauthnData: map[int64]*webauthAuthData{}, TOTPAuthData: map[int64]*totpAuthData{}}
+	if err := state.SaveUserProfile(user, p); err != nil {
+		t.Fatal(err)
+	}
+	begin, beginPath, finish, finishPath := state.u2fSignRequest, u2fSignRequestPath, state.u2fSignResponse, u2fSignResponsePath
+	if proto_ == "wa" {
+		begin, beginPath, finish, finishPath = state.webauthnAuthLogin, webAuthnAuthBeginPath, state.webauthnAuthFinish, webAuthnAuthFinishPath
+	} else if proto_ != "u2f" {
+		return "bad-op"
+	}
+	breq := vfFormPost(beginPath, neturl.Values{})
+	breq.AddCookie(vfAuthCookie(t, state, user, AuthTypePassword))
+	rr, pn := vfServe(begin, breq)
+	if pn != nil || rr.Code != 200 {
+		return fmt.Sprintf("begin-failed-%d", rr.Code)
+	}
+	var ch string
+	if proto_ == "u2f" {
+		var sr u2f.WebSignRequest
+		json.Unmarshal(rr.Body.Bytes(), &sr)
+		ch = sr.Challenge
+	} else {
+		var ca struct {
+			PublicKey struct {
+				Challenge string `json:"challenge"`
+			} `json:"publicKey"`
+		}
+		json.Unmarshal(rr.Body.Bytes(), &ca)
+		ch = ca.PublicKey.Challenge
+	}
+	raw, err := base64.RawURLEncoding.DecodeString(strings.TrimRight(ch, "="))
+	if err != nil {
+		raw, err = base64.StdEncoding.DecodeString(ch)
+	}
+	if err != nil || len(raw) == 0 {
+		return "bad-challenge"
+	}
+	var body []byte
+	if proto_ == "u2f" {
+		body = tk.u2fAssertion(raw)
+	} else {
+		body = tk.waAssertion(raw, state.webAuthn.Config.RPID, true)
+	}
+	stagger := time.Duration(0)
+	if mode == "slowsave" {
+		vfSched.mu.Lock()
+		vfSlowSave = 250 * time.Millisecond
+		vfSched.mu.Unlock()
+		defer func() { vfSched.mu.Lock(); vfSlowSave = 0; vfSched.mu.Unlock() }()
+		stagger = 40 * time.Millisecond
+	} else if mode == "seq" {
+		stagger = 40 * time.Millisecond
+	} else if mode != "same" {
+		return "bad-op"
+	}
+	var wg sync.WaitGroup
+	var mu sync.Mutex
+	honoured := 0
+	other := map[int]int{}
+	start := make(chan struct{})
+	for i := 0; i < n; i++ {
+		i := i
+		wg.Add(1)
+		req := vfFormPost(finishPath, neturl.Values{})
+		req.Body = ioutil.NopCloser(strings.NewReader(string(body)))
+		req.Header.Set("Content-Type", "application/json")
+		req.AddCookie(vfAuthCookie(t, state, user, AuthTypePassword))
+		go func() {
+			defer wg.Done()
+			<-start
+			time.Sleep(time.Duration(i) * stagger)
+			rr, pn := vfServe(finish, req)
+			mu.Lock()
+			if pn == nil && rr.Code == 200 && vfC16RaisedToU2F(state, rr) {
+				honoured++
+			} else if pn != nil {
+				other[-1]++
+			} else {
+				other[rr.Code]++
+			}
+			mu.Unlock()
+		}()
+	}
+	close(start)
+	wg.Wait()
+	time.Sleep(10 * time.Millisecond)
+	return fmt.Sprintf("%d %d %v", honoured, n, other)
+}
+
+// vfC16RaisedToU2F: did the response hand out a session cookie that carries the hardware-token level?
+func vfC16RaisedToU2F(state *RuntimeState, rr *httptest.ResponseRecorder) bool {
+	for _, ck := range rr.Result().Cookies() {
+		if ck.Name != authCookieName {
+			continue
+		}
+		info, err := state.getAuthInfoFromAuthJWT(ck.Value)
+		if err == nil && info.AuthType&AuthTypeU2F != 0 {
+			return true
+		}
+	}
+	return false
+}
+
+// vfC16ConcurrentUnseal: a freshly sealed server (both CA files encrypted) receives n correct
+// passphrase injections at once. `<#200> <seal digest>`; served one after another exactly one is
+// acknowledged, two CA certificates exist and readiness is signalled once.
+var vfC16Shapes *vfShapes
+
+func vfC16ConcurrentUnseal(t *testing.T, state *RuntimeState, n int) string {
+	if vfC16Shapes == nil {
+		vfC16Shapes = vfNewShapes(t, state)
+	}
+	chain := []*x509.Certificate{vfC16Shapes.certs["km"], vfC16Shapes.kmCA}
+	st := &RuntimeState{logger: testlogger.New(t), passwordAttemptGlobalLimiter: rate.NewLimiter(1e9, 1000)}
+	st.SSHCARawFileContent = []byte(encryptedTestSignerPrivateKey)
+	st.Ed25519CAFileContent = []byte(encryptedTestEd25519PrivateKey)
+	st.SignerIsReady = make(chan bool, 64)
+	var wg sync.WaitGroup
+	var mu sync.Mutex
+	oks := 0
+	start := make(chan struct{})
+	for i := 0; i < n; i++ {
+		wg.Add(1)
+		req, _ := vfInjectReq("pass:70617373776f7264", chain)
+		go func() {
+			defer wg.Done()
+			<-start
+			rr, p := vfServe(st.secretInjectorHandler, req)
+			if p == nil && rr.Code == 200 {
+				mu.Lock()
+				oks++
+				mu.Unlock()
+			}
+		}()
+	}
+	close(start)
+	wg.Wait()
+	return fmt.Sprintf("%d %s", oks, vfSealDigest(0, st))
 }
